@@ -304,7 +304,7 @@ META = {
     "(optimisation: feasible); distinct by SHA-1 of the canonical case",
 }
 REPLAY_MODE = "I"
-EXAMPLES = {"quick": (500, 250, 40), "thorough": (5000, 2500, 400)}
+EXAMPLES = {"quick": (1200, 500, 80), "thorough": (12000, 5000, 800)}
 
 
 def jobs(tier):
